@@ -21,7 +21,12 @@ theorem ctree_run_shift (c : CTree) : ∀ (ts : TS) (d : Nat), c.run (ts.shift d
   induction c with
   | done => intro ts d; rfl
   | emit id k ih => intro ts d; simp only [CTree.run, ih]; rfl
-  | errorf m k ih => intro ts d; simp only [CTree.run]; exact ih { ts with failed := some m } d
+  | errorf m k ih =>
+    intro ts d
+    simp only [CTree.run]
+    have := ih { ts with failed := some m } d
+    simp only [TS.shift] at this ⊢
+    rw [this]; rfl
   | throw e => intro ts d; rfl
   | reg c k _ ihk => intro ts d; simp only [CTree.run]; exact ihk { ts with cleanups := c :: ts.cleanups } d
   | ctx k ih =>
@@ -110,7 +115,12 @@ theorem run_shift (p : Prog) : ∀ (src : Src) (ts : TS) (d : Nat), p.run src (t
       | stop m s => rfl
       | panic m s => rfl
       | fuel => rfl
-  | errorf m k ih => intro src ts d; simp only [Prog.run]; exact ih src { ts with failed := some m } d
+  | errorf m k ih =>
+    intro src ts d
+    simp only [Prog.run]
+    have := ih src { ts with failed := some m } d
+    simp only [TS.shift] at this ⊢
+    rw [this]; rfl
   | failOnError site k ih =>
     intro src ts d
     simp only [Prog.run, shift_failed]
